@@ -234,6 +234,9 @@ void brngHMACStepR(void* buf, size_t count, void* state)
 {
 	brng_hmac_st* s = (brng_hmac_st*)state;
 	ASSERT(memIsDisjoint2(buf, count, s, brngHMAC_keep()));
+	// состояние могло быть скопировано
+	if (s->iv_len <= 64)
+		s->iv = s->iv_buf;
 	// есть резерв данных?
 	if (s->reserved)
 	{
